@@ -5,6 +5,8 @@ Equivariance needs no oracle formula: the same real kernel is run on (x_i in uni
 (value * scale of the output unit) must be identical for all sigma."""
 from __future__ import annotations
 
+import sys
+
 import itertools
 from fractions import Fraction
 
@@ -244,6 +246,53 @@ def job_dtype(job, seed):
     return {'obligations': obs, 'candidates': cands, 'paths': len(paths)}
 
 
+def job_dtype_shapes(job, seed):
+    """The dtype contract of the gravity kernels does not depend on how the operands broadcast: a single-precision
+    wavelength gives single-precision angles also when the scattered beam carries a dimension the wavelength lacks
+    (per-pixel beams against a wavelength axis), for the perpendicular and for the tilted incident beam."""
+    fname, wdt, geometry = job
+    from symex import core as C
+    from .symutil import fresh_run
+
+    m = _load('conversion.beamline')
+    fresh_run()
+    sc = sys.modules['scipp']
+    f = getattr(m, fname)
+    obs, cands = [], []
+    tag = f'{fname}[wavelength {wdt}(wavelength) x beams(det), {geometry} incident beam]'
+    case = {'kind': 'dtype-shapes', 'fname': fname, 'wavelength_dtype': wdt, 'geometry': geometry}
+    inc = sc.vector([0.0, 0.0, 10.0], unit='m') if geometry == 'perpendicular' else sc.vector([0.0, 0.5, 10.0], unit='m')
+    kw = dict(incident_beam=inc, scattered_beam=sc.vectors(dims=['det'], values=[[0.1, 0.2, 3.0], [-0.3, 0.1, 2.5]], unit='m'),
+              wavelength=sc.array(dims=['wavelength'], values=[1.5, 4.25], unit='angstrom', dtype=wdt), gravity=sc.vector([0.0, -9.80665, 0.0], unit='m/s**2'))
+    C.CTX.concrete_env = {'h_planck': 6.62607015e-34, 'm_neutron': 1.67492749804e-27, 'g_std': 9.80665}
+    try:
+        paths = C.explore(lambda: f(**kw), max_paths=8)
+    finally:
+        C.CTX.concrete_env = None
+    n = 0
+    for p in paths:
+        if p.inconclusive:
+            obs.append({'name': f'{tag}:runs', 'status': 'inconclusive', 'detail': p.inconclusive[:200], 't': 0})
+            continue
+        if p.exc is not None:
+            if isinstance(p.exc, ValueError) and 'orthogonal' in str(p.exc):
+                n += 1
+                continue  # the yz-plane angle refuses a tilted beam
+            obs.append({'name': f'{tag}:raises', 'status': 'violated', 'detail': repr(p.exc)[:200], 't': 0})
+            cands.append((f'C07:{fname}:dtype', case, repr(p.exc)[:200]))
+            continue
+        n += 1
+        items = p.value.items() if isinstance(p.value, dict) else [('angle', p.value)]
+        for k, v in items:
+            ob = C.prove(f'{tag}:{k}:dtype={wdt}', C.B.const(v.dtype.name == wdt))
+            obs.append(ob_dict(ob))
+            if ob.status != 'discharged':
+                cands.append((f'C07:{fname}:dtype', case, f'{k}: dtype {v.dtype.name} != {wdt} when the beams carry a dimension the wavelength lacks'))
+    if n == 0:
+        obs.append({'name': f'{tag}:runs', 'status': 'inconclusive', 'detail': 'no returning path', 't': 0})
+    return {'obligations': obs, 'candidates': cands, 'paths': len(paths)}
+
+
 ALT_UNIT = {'time': 'ms', 'length': 'mm', 'energy': 'ueV', 'wavelength': 'nm', 'invlength': '1/nm', 'abs_time': 'ms'}
 
 
@@ -347,6 +396,7 @@ def run(chk):
     ijobs = [(si, a) for si, (mod, fname, args, outunit, data) in enumerate(SPECS) if data is not None and fname not in EQUIV_ELSEWHERE
              for a in args if args[a] in ALT_UNIT and (a in data or chk.tier == 'thorough')]
     run_jobs(chk, job_int, ijobs)
+    run_jobs(chk, job_dtype_shapes, [(fn_, dt_, g_) for fn_ in ('scattering_angles_with_gravity', 'scattering_angle_in_yz_plane') for dt_ in ('float32', 'float64') for g_ in ('perpendicular', 'tilted')])
     from . import shimval
     shimval.validate(chk, 'kinematics-dtypes', 60 if chk.tier == 'quick' else 300)
     shimval.validate(chk, 'inelastic-dtypes', 30 if chk.tier == 'quick' else 150)
@@ -363,6 +413,23 @@ def replay_real(case):
     import numpy as np
     import scipp as sc
 
+    if case.get('kind') == 'dtype-shapes':
+        from scippneutron.conversion import beamline as rb
+
+        f = getattr(rb, case['fname'])
+        wdt = case['wavelength_dtype']
+        bad = []
+        for inc in ([0.0, 0.0, 10.0], [0.0, 0.5, 10.0]):
+            kw = dict(incident_beam=sc.vector(inc, unit='m'), scattered_beam=sc.vectors(dims=['det'], values=[[0.1, 0.2, 3.0], [-0.3, 0.1, 2.5]], unit='m'),
+                      wavelength=sc.array(dims=['wavelength'], values=[1.5, 4.25], unit='angstrom', dtype=wdt), gravity=sc.vector([0.0, -9.80665, 0.0], unit='m/s**2'))
+            try:
+                out = f(**kw)
+            except ValueError:
+                continue
+            for k, v in (out.items() if isinstance(out, dict) else [('angle', out)]):
+                if str(v.dtype) != wdt:
+                    bad.append(f'{case["fname"]}: {k} has dtype {v.dtype} for a {wdt} wavelength of dims {kw["wavelength"].dims} and per-pixel beams (incident beam {inc})')
+        return {'reproduced': bool(bad), 'detail': '; '.join(bad[:2])}
     mod, fname, args, outunit, data = SPECS[case['spec']]
     import importlib
 
